@@ -749,6 +749,43 @@ def _state_of_target(spec, level, tgt):
     raise KeyError(opname)
 
 
+def gen_twinops(rng, build='python'):
+    """node templates made of two operators that are structurally identical (same equations and declarations) and differ
+    only in name and values; two such node templates whose operators carry DIFFERENT names.  Every node/operator has its
+    own values."""
+    k = rng.choice(['lin', 'leak', 'sat'])
+    spec = {'name': 'c', 'build': build, 'ops': {}, 'nts': {}, 'edges': []}
+    pool = [v / 32 for v in range(-40, 41) if v]
+    rng.shuffle(pool)
+    for sfx in 'abcd':
+        d = dict(LIB[k]['defaults'])
+        for c in LIB[k]['const']:
+            d[c] = _grid(rng, 0.25, 3.0, 16)
+        for c in LIB[k]['state']:
+            d[c] = pool.pop()
+        spec['ops'][f'{k}_{sfx}'] = {'lib': k, 'name': f'{k}_{sfx}', 'defaults': d}
+    for key, pair in (('ntE', 'ab'), ('ntI', 'cd')):
+        var = {}
+        for sfx in pair:
+            if rng.random() < 0.6:
+                var[f'{k}_{sfx}'] = {c: _grid(rng, 0.25, 3.0, 16) for c in rng.sample(LIB[k]['const'], rng.randint(1, len(LIB[k]['const'])))}
+        spec['nts'][key] = {'name': key, 'ops': [f'{k}_{s_}' for s_ in pair], 'var': var}
+    names = node_names(rng, rng.randint(2, 4))
+    assign = {nm: ('ntE', 'ntI')[i % 2] if i < 2 else rng.choice(['ntE', 'ntI']) for i, nm in enumerate(names)}
+    if rng.random() < 0.5:
+        assign = dict(reversed(list(assign.items())))
+    spec['nodes'] = assign
+    seen = set()
+    for _ in range(rng.randint(0, 3)):
+        s_, t_ = rng.choice(names), rng.choice(names)
+        so, to = rng.choice(spec['nts'][assign[s_]]['ops']), rng.choice(spec['nts'][assign[t_]]['ops'])
+        if (s_, so, t_, to) in seen:
+            continue
+        seen.add((s_, so, t_, to))
+        spec['edges'].append([f'{s_}/{so}/{LIB[k]["out"]}', f'{t_}/{to}/{LIB[k]["in"]}', {'weight': _grid(rng, -2.0, 2.0, 32) or 0.75}])
+    return spec
+
+
 def gen_aliased(rng, uniq='', hier=None, build='python', libs=('lin', 'leak', 'sat'), readouts=0.0):
     """circuit with aliasing: one OperatorTemplate used by several NodeTemplates (with and without per-node overrides),
     one NodeTemplate object under several node keys (and in several sub-circuits)."""
